@@ -241,9 +241,11 @@ def draw_in_bin(F, k, t):
     if b - a <= 0:
         return None
     u = float(a + (b - a) * Fraction(t))
-    # safely inside: at least 1e-9 of the width and 4 ulps away from both boundaries
+    # safely inside: at least 1e-9 of the width away from both boundaries, and farther than the library's float cumulative sum can be
+    # from the exact one (sequential summation of n normalised weights: n ulps of 1 at worst, plus 4 ulps for the normalisation)
     w = float(b - a)
-    if not (float(a) + max(1e-9 * w, 4e-16) < u < float(b) - max(1e-9 * w, 4e-16)) or not (0.0 <= u < 1.0):
+    margin = max(1e-9 * w, 4e-16 + 2.3e-16 * (len(F) - 1))
+    if not (float(a) + margin < u < float(b) - margin) or not (0.0 <= u < 1.0):
         return None
     return u
 
